@@ -86,6 +86,15 @@ Theorem C08_getitem_ttm_all_int (x : ttm R) (zs ws : list Z) (is_ js : list nat)
   getitem_ttm x (map IInt zs ++ map IInt ws) = GS (entry4 x is_ js).
 Proof. exact (getitem_ttm_all_int x zs ws is_ js). Qed.
 
+(* ... and the COMPOSITE statement for operators: pairs (integer, integer) or (slice, slice) - negative integers, steps, clipped bounds - with at least one
+   pair of slices: A[rows, cols] is a TT matrix whose row / column modes are the lengths of the slice pairs and whose entry at (is', js') is the entry of A at the
+   source (row, column) multi-index pair_src computes (st + i * step per slice, the normalised integer otherwise); every order, rectangular modes, ranks *)
+Theorem C08_getitem_ttm_int_slice (x : ttm R) rows cols fs shp ks : wf4 x -> pair_fs x rows cols = Some (fs, shp, ks) -> existsb (fun b => b) ks = true ->
+  exists y, getitem_ttm x (rows ++ cols) = GM y /\
+    forall is' js', length is' = length (kept_of shp ks) -> Forall2 lt js' (map snd (kept_of shp ks)) ->
+      entry4 y is' js' = entry4 x (fst (pair_src x rows cols is' js')) (snd (pair_src x rows cols is' js')).
+Proof. exact (getitem_ttm_int_slice x rows cols fs shp ks). Qed.
+
 End C08.
 Print Assumptions C08_apply_mask_full.
 Print Assumptions C08_remaps_entry.
@@ -99,9 +108,21 @@ Print Assumptions C08_getitem_with_none.
 Print Assumptions C08_getitem_leading_ellipsis.
 Print Assumptions C08_getitem_trailing_ellipsis.
 Print Assumptions C08_getitem_ttm_all_int.
+Print Assumptions C08_getitem_ttm_int_slice.
 (* the hypotheses are satisfiable and the statement computes: a 2 x 3 (x) 2 x 2 integer operator indexed with [1, -1, -3, 0] *)
 Example C08_getitem_ttm_instance :
   let A := [mk4 1 2 3 2 (fun _ i j q => Z.of_nat (i * 7 + j * 3 + q + 1)); mk4 2 2 2 1 (fun p i j _ => Z.of_nat (p * 5 + i * 2 + j + 2))] in
   norm_ints (shapeM A) [1; -1]%Z = Some [1; 1]%nat /\ norm_ints (shapeN A) [-3; 0]%Z = Some [0; 0]%nat /\
   getitem_ttm A (map IInt [1; -1]%Z ++ map IInt [-3; 0]%Z) = GS (entry4 A [1; 1]%nat [0; 0]%nat) /\ entry4 A [1; 1]%nat [0; 0]%nat = 113%Z.
 Proof. vm_compute. repeat split; reflexivity. Qed.
+(* the hypotheses of the composite operator theorem are satisfiable and the model computes: A[1:, -1, ::2, 0] for a (3 x 4) (x) (2 x 2) operator *)
+Example C08_getitem_ttm_slice_instance :
+  let A := [mk4 1 3 4 2 (fun _ i j q => Z.of_nat (i * 7 + j * 3 + q + 1)); mk4 2 2 2 1 (fun p i j _ => Z.of_nat (p * 5 + i * 2 + j + 2))] in
+  let rows := [ISlice (Some 1%Z) None None; IInt (-1)%Z] in let cols := [ISlice None None (Some 2%Z); IInt 0%Z] in
+  exists fs shp ks, pair_fs A rows cols = Some (fs, shp, ks) /\ shp = [(2, 2); (1, 1)]%nat /\ ks = [true; false] /\
+    match getitem_ttm A (rows ++ cols) with
+    | GM y => map (fun ij => entry4 y [fst ij] [snd ij]) [(0, 0); (0, 1); (1, 0); (1, 1)]%nat
+              = map (fun ij => entry4 A [S (fst ij); 1]%nat [(2 * snd ij)%nat; 0%nat]) [(0, 0); (0, 1); (1, 0); (1, 1)]%nat
+    | _ => False
+    end.
+Proof. vm_compute. eexists. eexists. eexists. repeat split; reflexivity. Qed.
